@@ -70,6 +70,13 @@ type YAMLStyleStats struct {
 	// Fallback lists the paths whose hand-written form yaml.v2 did not read
 	// back as the intended string: they are written in the Marshal form.
 	Fallback []string
+	// Last is the hand-written value that ends the document (nil when the document ends with something else):
+	// for a block scalar the final line breaks of the file are part of it.
+	Last *AppliedStyle
+	// Tail is the Layout.YAMLTail that was applied; TailFallback says that Layout.YAMLTail was given up because
+	// yaml.v2 reads the file differently with it (a clip / keep block scalar at the end of the document).
+	Tail         string
+	TailFallback bool
 }
 
 // mapDoc rebuilds the document v with every string value replaced by f(path, value).
@@ -158,8 +165,26 @@ func yamlDecodesTo(a []byte, want any) bool {
 }
 
 // RenderYAMLStyled is RenderYAML with the string values named in
-// Layout.YAMLStyles written by hand. Without styles the output is RenderYAML's.
+// Layout.YAMLStyles written by hand and the file ending as Layout.YAMLTail says. Without styles and tail the
+// output is RenderYAML's.
 func RenderYAMLStyled(m Model) ([]byte, YAMLStyleStats) {
+	text, st := renderYAMLStyled(m)
+	for i := range st.Applied {
+		if bytes.HasSuffix(text, []byte(": "+st.Applied[i].Text+"\n")) || bytes.HasSuffix(text, []byte("- "+st.Applied[i].Text+"\n")) {
+			st.Last = &st.Applied[i]
+		}
+	}
+	if tail := m.Layout.YAMLTail; tail != "" {
+		if t2 := applyTail(text, tail); !bytes.Equal(t2, text) && yamlDecodesEqual(t2, text) {
+			text, st.Tail = t2, tail
+		} else {
+			st.TailFallback = true
+		}
+	}
+	return text, st
+}
+
+func renderYAMLStyled(m Model) ([]byte, YAMLStyleStats) {
 	var st YAMLStyleStats
 	base := RenderYAML(m)
 	if len(m.Layout.YAMLStyles) == 0 {
